@@ -27,6 +27,7 @@ from harness.common import Model, s2l
 from harness.props import c15
 from harness.props.c15 import (FNAME, FORMATS, K_ENTITY, K_JUNK, K_PLACEHOLDER, ckind, centry,
                                Ids, walk_bytes, gen_items, render, render_value, key_name,
+                               render_comment, render_entity,
                                entity_facts, normalise)
 
 FACTS = ("tables", "c15")
@@ -37,11 +38,15 @@ RULE = ("seeded triples per format: reference = rendered record list (values mar
         "parsing a generated file of the format, None removals and unknown keys; a case is "
         "distinct by (format, reference text, old text, new data)")
 
-from harness.props.c15 import JUNK_MARK, JUNK_LINE, mutate  # noqa: E402
+from harness.props.c15 import JUNK_MARK, JUNK_LINE, mutate, key_str, comment_val  # noqa: E402
+
+FORMATS16 = FORMATS + ["po"]     # PO only here: its keys are (msgid, msgctxt) tuples
 
 
-def serialize_impl(name, ref, old, new_data):
+def serialize_impl(name, ref, old, new_data, po=False):
     from compare_locales.serializer import serialize, SerializationNotSupportedError
+    if po:
+        new_data = {(k, None): v for k, v in new_data.items()}
     try:
         out = serialize(name, ref, old, new_data)
     except SerializationNotSupportedError:
@@ -99,13 +104,39 @@ def raw_values(fmt, recs):
     out = {}
     for e in walk_bytes(FNAME[fmt], text.encode("utf-8")):
         if ckind(e) == K_ENTITY:
-            out[e.key] = e.unwrap()
+            out[key_str(e.key)] = e.unwrap()
     assert list(out) == [k for k, _ in recs], (fmt, text)
     return out
 
 
+SPECIAL_FORMATS = ("dtd", "properties", "ini", "inc", "po")     # the users of Entity.wrap
+
+
+def special_value(fmt, rng, it):
+    """a reference record whose value is empty, or re-occurs in the key, in the attached
+    comment or in the closing syntax of the entity (where the value sits is known from
+    the record, never from searching the text)"""
+    key, com = it[1], it[3]
+    r = rng.random()
+    if r < 0.35:
+        v = ""
+    elif r < 0.6:
+        a = rng.randrange(len(key))
+        v = key[a:rng.randint(a + 1, len(key))].strip() or key
+    elif r < 0.8:
+        com = com or "note"
+        v = com if rng.random() < 0.5 else com[:2].strip() or com
+    else:
+        v = {"dtd": ">", "android": "string", "ftl": "x", "po": "msgstr"}.get(fmt, key[-1])
+    if fmt == "po":
+        v = 'msgstr "%s"' % v
+    if fmt == "ftl" and not v:
+        v = "{\"\"}"            # a Fluent message needs a value
+    return ("ent", key, v, com)
+
+
 def gen_triple(rng, fmt=None):
-    fmt = fmt or rng.choice(FORMATS)
+    fmt = fmt or rng.choice(FORMATS16)
     nkeys = rng.randint(1, 8)
     blanks = rng.random() < 0.6
     ref_items = normalise(fmt, gen_items(fmt, rng, nkeys, lang="EN_", blanks=blanks))
@@ -113,6 +144,9 @@ def gen_triple(rng, fmt=None):
         # `#define KEY` without a value is a valid define
         ref_items = [("ent", it[1], None, it[3]) if it[0] == "ent" and rng.random() < 0.4 else it
                      for it in ref_items]
+    if fmt in SPECIAL_FORMATS and rng.random() < 0.3:
+        ref_items = [special_value(fmt, rng, it) if it[0] == "ent" and it[2] is not None
+                     and rng.random() < 0.5 else it for it in ref_items]
     ref_keys = [it[1] for it in ref_items if it[0] == "ent"]
     # old localization: reference structure, subset of keys, own values / comments
     old_items = []
@@ -164,6 +198,8 @@ def gen_triple(rng, fmt=None):
     for k in pool[:rng.randint(0, min(4, len(pool)))]:
         if rng.random() < 0.3:
             new_none.append(k)
+        elif rng.random() < 0.08 and fmt not in ("ftl", "po"):
+            new_recs.append((k, ""))             # an empty string is a value, not a removal
         else:
             new_recs.append((k, render_value(fmt, rng, "N")))
     known = [(k, v) for k, v in new_recs if not k.startswith("unknown")]
@@ -188,7 +224,8 @@ def describe(case):
 
 
 def entity_list(fmt, entries):
-    return [(e.key,) + tuple(entity_facts(fmt, e)[:1]) for e in entries if ckind(e) == K_ENTITY]
+    """(key, raw value, attached comment) of the entities"""
+    return [(key_str(e.key),) + tuple(entity_facts(fmt, e)) for e in entries if ckind(e) == K_ENTITY]
 
 
 def classify(case, sig, junk=()):
@@ -211,13 +248,18 @@ def oracle_serialize(chk, case, ref, out_text):
     desc = describe(case)
     new_data = case["new_data"]
     ref_keys = [it[1] for it in case["ref_items"] if it[0] == "ent"]
-    old_vals = {it[1]: it[2] for it in case["old_items"] if it[0] == "ent"}
+    old_vals = {it[1]: (it[2], it[3]) for it in case["old_items"] if it[0] == "ent"}
+    ref_coms = {it[1]: it[3] for it in case["ref_items"] if it[0] == "ent"}
+
+    def cv(c):
+        return None if c is None else comment_val(fmt, c)
     want = []
     for k in ref_keys:
         if new_data.get(k) is not None:
-            want.append((k, case["new_recs"][k]))
+            # wrap keeps the reference entity's syntax and comment around the new value
+            want.append((k, case["new_recs"][k], cv(ref_coms[k])))
         elif k not in new_data and k in old_vals:
-            want.append((k, old_vals[k]))
+            want.append((k, old_vals[k][0], cv(old_vals[k][1])))
     entries = walk_bytes(name, out_text.encode("utf-8"))
     junk = [e.all for e in entries if ckind(e) == K_JUNK]
     if junk:
@@ -241,7 +283,7 @@ def oracle_serialize(chk, case, ref, out_text):
         chk.fail(classify(case, "serialize-leak"), desc, {"output": out_text, "found": bad})
         return
     # idempotence at entity level through the real parser
-    res2, again = serialize_impl(name, ref, entries, {})
+    res2, again = serialize_impl(name, ref, entries, {}, po=fmt == "po")
     if again is None:
         chk.fail("serialize-idempotent", desc, {"output": out_text, "second": res2})
         return
@@ -291,12 +333,12 @@ def run(chk, runner_ok):
     n = chk.n(2000, 30000)
     cases, impl, reqs, ereqs = [], [], [], []
     for i in range(n):
-        case = gen_triple(rng, FORMATS[i % len(FORMATS)] if i < 600 else None)
+        case = gen_triple(rng, FORMATS16[i % len(FORMATS16)] if i < 700 else None)
         fmt = case["fmt"]
         name = FNAME[fmt]
         ref = walk_bytes(name, case["ref"].encode("utf-8"))
         old = walk_bytes(name, case["old"].encode("utf-8"))
-        res, text = serialize_impl(name, ref, old, case["new_data"])
+        res, text = serialize_impl(name, ref, old, case["new_data"], po=fmt == "po")
         chk.count(("ser", fmt, case["ref"], case["old"], sorted(case["new_data"].items(), key=str)))
         chk.hist("format", fmt)
         chk.hist("new_data_size", len(case["new_data"]))
@@ -330,7 +372,8 @@ def run(chk, runner_ok):
         else:
             old = walk_bytes(name, ot.encode("utf-8"))
         nd = dict(case["new_data"])
-        res, text = serialize_impl(name if rng.random() < 0.97 else "foo.txt", ref, old, nd)
+        res, text = serialize_impl(name if rng.random() < 0.97 else "foo.txt", ref, old, nd,
+                                   po=fmt == "po")
         used_name = name if res != [1, 11] else "foo.txt"
         chk.count(("serw", fmt, rt, ot, sorted(nd.items(), key=str), r < 0.15))
         cases.append({"fmt": fmt, "ref": rt, "old": ot, "new_data": nd, "shared": r < 0.15})
@@ -338,30 +381,80 @@ def run(chk, runner_ok):
         reqs.append(model_request(used_name, ref, old, nd))
     if model:
         chk.correspond("SERIALIZE-wild", cases, impl, model.call(reqs))
+    # ---- SEQUENCE: supported and unsupported names interleaved in this one process ------
+    # (which names have a parser is known from how c15.seq_sequences builds them)
+    cases, impl, reqs = [], [], []
+    for seq in c15.seq_sequences(rng, chk.n(100, 1000)):
+        history = []
+        for sname, fmt, sup in seq:
+            case = gen_triple(rng, fmt)
+            ref = walk_bytes(FNAME[fmt], case["ref"].encode("utf-8"))
+            old = walk_bytes(FNAME[fmt], case["old"].encode("utf-8"))
+            res, text = serialize_impl(sname, ref, old, case["new_data"], po=fmt == "po")
+            chk.count(("seq", tuple(history), sname, case["ref"], case["old"]))
+            desc = dict(describe(case), sequence_before=list(history), name=sname)
+            if not sup and res != [1, 11]:
+                chk.fail("serialize-unsupported-not-refused", desc,
+                         {"result": res[:1], "output": text,
+                          "why": "the name has no parser (known from how the name was built); "
+                                 "serialize must raise SerializationNotSupportedError whatever "
+                                 "was serialized before in this process"})
+            if sup and text is None:
+                chk.fail("serialize-supported-refused", desc, {"result": res})
+            if sup and text is not None:
+                oracle_serialize(chk, case, ref, text)
+            history.append(sname)
+            cases.append(desc)
+            impl.append(res)
+            reqs.append(model_request(sname, ref, old, case["new_data"]))
+    if model:
+        chk.correspond("SEQUENCE", cases, impl, model.call(reqs))
     # ---- WRAP / SLICE -------------------------------------------------------------------
     wcases, wimpl, wreqs = [], [], []
     for i in range(chk.n(400, 4000)):
-        fmt = rng.choice(["properties", "dtd", "ini", "inc", "ftl"])
+        fmt = rng.choice(["properties", "dtd", "ini", "inc", "ftl", "po"])
         items = normalise(fmt, gen_items(fmt, rng, rng.randint(1, 6), lang="EN_"))
+        if fmt in SPECIAL_FORMATS and rng.random() < 0.5:
+            items = [special_value(fmt, rng, it) if it[0] == "ent" and rng.random() < 0.5 else it
+                     for it in items]
         if fmt == "inc" and rng.random() < 0.5:
             items = [it if it[0] != "ent" or rng.random() < 0.6 else ("ent", it[1], None, it[3])
                      for it in items]
-        text = render(fmt, items)
-        if rng.random() < 0.4:
+        style = rng.randint(0, 2)
+        text = render(fmt, items, style)
+        mutated = rng.random() < 0.4
+        if mutated:
             text = mutate(rng, text, fmt)
+        recs = {it[1]: it for it in items if it[0] == "ent"}
         for e in walk_bytes(FNAME[fmt], text.encode("utf-8")):
             if ckind(e) != K_ENTITY:
                 continue
-            raw = rng.choice(["", "N new", "x\ny", "Ünï"])
+            raw = rng.choice(["", "N new", "x\ny", "Ünï", key_str(e.key), ">"])
+            if fmt == "po":
+                raw = 'msgstr "%s"' % raw.replace("\n", " ")
+            w = None
             try:
                 w = e.wrap(raw)
-                wimpl.append([0, [s2l(w.key), s2l(w.raw_val), s2l(w.all)]])
+                wimpl.append([0, [s2l(key_str(w.key)), s2l(w.raw_val), s2l(w.all)]])
             except Exception as ex:  # noqa
                 from harness.common import TAGS
                 wimpl.append([1, TAGS.get(type(ex).__name__, 99)])
-            wcases.append({"fmt": fmt, "text": text, "key": e.key, "raw": raw})
-            wreqs.append((1, [s2l(text), wrapinfo(e, [raw]), s2l(e.key), s2l(raw)]))
-            chk.count(("wrap", fmt, text, e.key, raw))
+            case = {"fmt": fmt, "text": text, "key": key_str(e.key), "raw": raw}
+            wcases.append(case)
+            wreqs.append((1, [s2l(text), wrapinfo(e, [raw]), s2l(key_str(e.key)), s2l(raw)]))
+            chk.count(("wrap", fmt, text, key_str(e.key), raw))
+            # oracle: the wrapped text is the record rendered with the new value (the value's
+            # place is known from the record); valueless .inc defines are the known finding
+            it = recs.get(key_str(e.key))
+            if not mutated and fmt != "ftl" and it is not None:
+                if it[2] is None:
+                    continue
+                want = (render_comment(fmt, it[3]) + "\n" if it[3] is not None else "") + \
+                    render_entity(fmt, it[1], raw, style)
+                if w is None or w.all != want or w.raw_val != raw or key_str(w.key) != it[1]:
+                    chk.fail("wrap-text", case,
+                             {"got": None if w is None else w.all, "expected": want,
+                              "reference_value": it[2]})
     scases, simpl, sreqs = [], [], []
     for s in ["", "a", "abc", "abcde"]:
         for a in range(-7, 8):
@@ -391,12 +484,24 @@ def replay(chk, path):
         c = f["case"]
         before = len(sub.failures)
         name = FNAME[c["fmt"]]
-        if c.get("records"):
+        if f["signature"] == "wrap-text":
+            e = [x for x in walk_bytes(name, c["text"].encode("utf-8"))
+                 if ckind(x) == K_ENTITY and key_str(x.key) == c["key"]][0]
+            got = e.wrap(c["raw"]).all
+            if got != f["detail"]["expected"]:
+                sub.fail("wrap-text", c, {"got": got, "expected": f["detail"]["expected"]})
+        elif c.get("records"):
             case = dict(c["records"], fmt=c["fmt"], ref=c["ref"], old=c["old"], new_data=c["new_data"])
             ref = walk_bytes(name, c["ref"].encode("utf-8"))
             old = walk_bytes(name, c["old"].encode("utf-8"))
-            res, text = serialize_impl(name, ref, old, c["new_data"])
-            if text is None:
+            for nm in c.get("sequence_before", []):
+                serialize_impl(nm, ref, old, c["new_data"], po=c["fmt"] == "po")
+            res, text = serialize_impl(c.get("name", name), ref, old, c["new_data"],
+                                       po=c["fmt"] == "po")
+            if f["signature"] == "serialize-unsupported-not-refused":
+                if res != [1, 11]:
+                    sub.fail(f["signature"], c, res[:1])
+            elif text is None:
                 sub.fail("serialize-raises", c, res)
             else:
                 oracle_serialize(sub, case, ref, text)
@@ -416,7 +521,7 @@ def replay(chk, path):
                 name = FNAME[c["fmt"]]
                 ref = walk_bytes(name, c["ref"].encode("utf-8"))
                 old = walk_bytes(name, c["old"].encode("utf-8"))
-                res, _ = serialize_impl(name, ref, old, c["new_data"])
+                res, _ = serialize_impl(name, ref, old, c["new_data"], po=c["fmt"] == "po")
                 out = model.call([model_request(name, ref, old, c["new_data"])])[0]
                 print("suite", d["suite"], "case", c, "impl", res[:1], "model", out[:1],
                       "agree" if res == out else "DISAGREE")
